@@ -18,7 +18,7 @@ import (
 // cover: small-exponent, huge-exponent, negative-exponent, compared, rendered
 func VerifC04_JSONNumbers() {
 	zzverif.Unwind(100000)
-	exps := []string{"4", "400", "40000", "4000000", "2000000000", "-400", "-2000000000"}
+	exps := []string{"4", "400", "4000", "4000000", "2000000000", "-400", "-2000000000"}
 	k := zzverif.Choice("exponent", len(exps))
 	switch {
 	case k < 3:
